@@ -230,7 +230,14 @@ impl Run {
                 .filter(|(p, s)| **p == DEAD_PEER && s.sends.load(std::sync::atomic::Ordering::SeqCst) % 2 == 0)
                 .map(|(p, _)| *p)
                 .collect();
-            let path = format!("/evt/{enc}");
+            // the path is delivered as given, rooted or not (also empty, and with a '~')
+            let path = match enc {
+                1 => format!("evt/{enc}"),
+                5 => "tick".to_string(),
+                6 => "~x/y".to_string(),
+                7 => String::new(),
+                _ => format!("/evt/{enc}"),
+            };
             let (res, want_fmt, want_bytes): (_, u16, Vec<u8>) = match enc {
                 0 => (
                     self.reg.broadcast_notify_json(&path, &payload).map_err(|e| e.to_string()),
